@@ -6,6 +6,11 @@ V = os.path.dirname(os.path.dirname(os.path.abspath(__file__)))
 props = [json.loads(l) for l in open(os.path.join(V, 'properties.jsonl'))]
 
 CHECKS = {
+ 'C17': dict(
+   technique='Coq proofs (case analysis, arithmetic of the UTF-8 code by lia, induction on value depth, cache invariants over arbitrary read sequences) over a model of try_utf8_decode and Message views/create/setters; correspondence by vm_compute on generated nested values incl. all 1-2 byte sequences',
+   text='Props/C17.v: exact case analysis, totality and idempotence of try_utf8_decode; decoding loses no information (re-encoding gives the bytes) for every byte string; the leaf rule for every byte string (all last bytes); for nested values of any depth (dict keys distinct after decoding) the decoded view keeps the container shape and every leaf is untouched or correctly decoded; for ANY sequence of reads every view gives the same answer each time and raw views stay the stored values; Message.create keeps every given entry and adds only absent defaults; setters are visible in the raw view. Model and real Message/try_utf8_decode are run on the same generated values (all 1- and 2-byte sequences exhaustively, structured 3-/4-byte prefixes, nested dict/list/tuple values, read orders, create/set cases) and compared in Coq; the Coq predicate is evaluated on the real observations, including that the caller\'s dict object is not mutated.',
+   note='Trusted: Coq kernel + vm_compute; harness; Python values abstracted to a value tree (floats/datetimes opaque); dictionaries whose keys collide after decoding are excluded; the publish->consume round trip is covered by C03/C04 composition and exercised by the C03 harness, pamqp property codec being a hypothesis.',
+   design='6 C17'),
  'C16': dict(
    technique='Coq proof of soundness+completeness of guard tables for every argument-type vector; the table is regenerated from the source by a fail-closed AST translator and checked by vm_compute (C16_all_ops); translator reading validated dynamically against the real operations',
    text='Props/C16.v: C16_guards_sound_complete proves, for ANY operation table passing the finite check table_ok and EVERY vector of argument types, that a wrong-typed transmitted parameter raises AMQPInvalidArgument before any effect and documented-type values never do; C16_all_ops checks table_ok on the table regenerated on every run from basic.py/queue.py/exchange.py/channel.py/connection.py (parameters, documented types, which parameters reach a pamqp frame, the if/elif raise chain, position of the first effect). Every operation x parameter x a catalogue of values per type tag is also called on a real channel over the virtual socket: observed verdicts must equal the table prediction evaluated in Coq, and the Coq predicate (rejected before any byte/state change; documented values accepted) is evaluated on the observation.',
